@@ -41,6 +41,8 @@ EXTRA = {
     "trusted_base": c16.EXTRA["trusted_base"],
 }
 
+# a block identifier is f"{file identifier}#'{sheet}'!A{row}" and the sheet title may itself hold "#'", "'!A3" …:
+# the file part ends at the FIRST "#'" (scratch paths hold none), the row is what follows the LAST "'!A"
 _ID = re.compile(r"^(.*?)(?:#'(.*)'!A(\d+))?$", re.S)
 _MTIME = re.compile(r"@\d{4}-\d\d-\d\dT\d\d:\d\d:\d\d$")
 
@@ -52,6 +54,16 @@ def key_of_ident(m, ident):
     if mm.group(3) is None:
         return [loc, None]
     return [loc, [mm.group(2), int(mm.group(3))]]
+
+
+def _selfcheck_id():
+    for t in c16.HOSTILE_TITLES + ["Sheet1", "a'!A1'!A2"]:
+        mm = _ID.match(f"/tmp/c18-x/3/in_f0.xlsx@2026-01-02T03:04:05#'{t}'!A17")
+        assert mm and mm.group(2) == t and mm.group(3) == "17" and mm.group(1).endswith(":05"), t
+    assert _ID.match("/tmp/c18-x/3/p").group(3) is None
+
+
+_selfcheck_id()
 
 
 def canon_forest(m, roots, tables):
@@ -172,6 +184,12 @@ def oracle_origins(case, m, r, out):
                          {"table": o["name"], "step": [spec, anchor], "leads_to": t, "expected_loc": leads,
                           "history": h}, None, key="history:disconnected")
                 return
+            if anchor is not None and anchor[0] not in r.canon["reads"]:
+                out.fail("a load-history step names a source that was not read in this load", case,
+                         {"table": o["name"], "step": [spec, anchor], "history": h,
+                          "read": [m.path_of.get(x) for x in r.canon["reads"]]}, None,
+                         key="history:source_not_read")
+                return
             leads = None if anchor is None else anchor[0]
 
 
@@ -183,8 +201,9 @@ def loc_key(loc):
     return (loc.load_identifier,)
 
 
-def oracle_forest(case, m, tables, roots, out):
-    """make_location_trees: a forest over the tables"""
+def oracle_forest(case, m, tables, roots, out, shape_only=False):
+    """make_location_trees: a forest over the tables.  `shape_only`: tables of several loads, whose histories
+    need not agree (the first registration of an identifier wins) — everything but one-node-per-history-location"""
     seen, leaves, order = {}, [], []
 
     def walk(n, parent, depth):
@@ -246,6 +265,8 @@ def oracle_forest(case, m, tables, roots, out):
     ids = [n.location.load_identifier for n in seen.values() if n.table is None]
     if len(ids) != len(set(ids)):
         out.fail("two tree nodes share a load identifier", case, sorted(ids), None, key="forest:dup_node")
+        return
+    if shape_only:
         return
     # one node per location: every (file, sheet, row) / file / folder that occurs as the file of a table or as a
     # source along a table's load history has its own node
@@ -324,13 +345,82 @@ def shift_columns(crng, case):
     return case
 
 
+def gen_two_loads(tier, seed, search=False):
+    """one tree, two consecutive loads in one process: files 0 and 1 both include file 2 (from different rows);
+    the first load starts at file 0, the second at file 1, so the shared file is reached by another route"""
+    for k in range(400 if (tier == "thorough" or search) else 40):
+        crng = make_rng(seed, f"C18:t:{k}")
+        n = crng.choice([3, 3, 4, 5])
+        es = {(0, 2), (1, 2)} | {(i, j) for i in range(n) for j in range(2, n) if crng.random() < 0.2}
+        kinds = [crng.choice(["csv", "csv", "xlsx"]) for _ in range(n)]
+        case = c16.build_case(crng, n, es, folders=crng.choice(c16.FOLDER_LAYOUTS[:4]), kinds=kinds,
+                              root_folder=crng.random() < 0.6, roots_mode="file", start_pattern=None,
+                              tracker="collecting", allow_include=True, mem=False, rich=True, sheet_pattern=None)
+        case["gen"] = {"two_loads": True}
+        s2, t2 = c16.spec_for(crng, case, None, ("F", 1))
+        second = dict(case, roots=[s2], root_targets=[t2], first_roots=case["roots"],
+                      first_root_targets=case["root_targets"])
+        yield case, second
+
+
+def two_loads(first, second, root, out, want_model, order):
+    """both loads over the same files in this process; each is judged against its own roots"""
+    m = c16.materialise(first, root)
+    from pdtable.io.load import make_location_trees
+    res1 = one_case(first, root, out, want_model, order, m=m)
+    res2 = one_case(second, root, out, want_model, order, m=m)
+    if res1 is not None and res2 is not None:
+        # the tables of both loads in one forest: histories of the two loads need not agree
+        union = res1["tables"] + res2["tables"]
+        try:
+            uroots = make_location_trees(union)
+        except Exception as e:  # noqa
+            out.fail("make_location_trees raised on the tables of two loads", second, repr(e), None,
+                     key="forest:raised:" + type(e).__name__)
+            return [res1, res2]
+        oracle_forest(dict(second, union_of_two_loads=True), m, union, uroots, out, shape_only=True)
+        if want_model:
+            res2["union_op"] = {"op": "location_trees",
+                                "tables": [{"loc": o["loc"], "sheet": o["sheet"], "row": o["row"],
+                                            "history": o["history"]}
+                                           for o in res1["table_outs"] + res2["table_outs"]]}
+            res2["union_forest"] = canon_forest(m, uroots, union)
+    return [x for x in (res1, res2) if x is not None]
+
+
 # ------------------------------------------------------------------------------------------------ run / replay
 
-def one_case(case, root, out, want_model, order):
+def oracle_iterables(case, m, tables, roots, out):
+    """`tables` is any iterable of tables (the module docs call `make_location_trees(iter(bundle))`): a dict view,
+    a one-shot iterator, a generator and a TableBundle iterator must all give the forest the list gives"""
+    from pdtable.io.load import make_location_trees
+    from pdtable import TableBundle, BlockType
+    want = canon_forest(m, roots, tables)
+    kinds = [("dict_values", lambda: {id(t): t for t in tables}.values()),
+             ("iter_list", lambda: iter(list(tables))),
+             ("generator", lambda: (t for t in tables)),
+             ("tuple", lambda: tuple(tables))]
+    if len({t.name for t in tables}) == len(tables):
+        kinds.append(("iter_bundle", lambda: iter(TableBundle(iter([(BlockType.TABLE, t) for t in tables])))))
+    for kind, make in kinds:
+        try:
+            got = canon_forest(m, make_location_trees(make()), tables)
+        except Exception as e:  # noqa
+            out.fail(f"make_location_trees raised for tables given as {kind}", case, repr(e), None,
+                     key="forest:iterable:" + kind)
+            return
+        if got != want:
+            out.fail(f"make_location_trees builds a different forest when the tables are given as {kind} "
+                     f"instead of a list", case, got, want, key="forest:iterable:" + kind)
+            return
+
+
+def one_case(case, root, out, want_model, order, m=None):
     """runs the implementation and the oracles; returns the model ops + what to compare them with"""
     from pdtable.io.load import make_location_trees
     from pdtable import BlockType
-    m = c16.materialise(case, root)
+    if m is None:
+        m = c16.materialise(case, root)
     nodes = c16.observe_world(case, m)
     r = c16.run_impl(case, m)
     impl = r.canon
@@ -345,7 +435,24 @@ def one_case(case, root, out, want_model, order):
         out.fail("make_location_trees raised", case, repr(e), None, key="forest:raised:" + type(e).__name__)
         return None
     oracle_forest(case, m, tables, roots, out)
-    res = {"m": m, "impl": impl, "ntables": len(tables)}
+    oracle_iterables(case, m, tables, roots, out)
+    # a selection of the load's tables, in the load's order or shuffled
+    srng = make_rng(int(case.get("seed", 0) or 0), f"C18:sub:{case.get('index')}:{case.get('roots')}")
+    sel = [k for k in range(len(tables)) if srng.random() < 0.55]
+    if len(sel) == len(tables) and sel:
+        sel.pop(srng.randrange(len(sel)))
+    if srng.random() < 0.4:
+        srng.shuffle(sel)
+    sub = [tables[k] for k in sel]
+    try:
+        sub_roots = make_location_trees(sub)
+    except Exception as e:  # noqa
+        out.fail("make_location_trees raised on a selection of the tables", case, repr(e), None,
+                 key="forest:raised:" + type(e).__name__)
+        return None
+    oracle_forest(dict(case, selection=sel), m, sub, sub_roots, out)
+    table_outs = [o for o in impl["out"] if o["ty"] == "TABLE"]
+    res = {"m": m, "impl": impl, "ntables": len(tables), "tables": tables, "table_outs": table_outs}
     if want_model:
         table = c16.resolve_table(case, m, r.MemLocationFile)
         res["load_op"] = c16.model_op(case, m, nodes, table, order)
@@ -353,6 +460,10 @@ def one_case(case, root, out, want_model, order):
                           "tables": [{"loc": o["loc"], "sheet": o["sheet"], "row": o["row"], "history": o["history"]}
                                      for o in impl["out"] if o["ty"] == "TABLE"]}
         res["forest"] = canon_forest(m, roots, tables)
+        res["sub_op"] = {"op": "location_trees",
+                         "tables": [{"loc": o["loc"], "sheet": o["sheet"], "row": o["row"], "history": o["history"]}
+                                    for o in (table_outs[k] for k in sel)]}
+        res["sub_forest"] = canon_forest(m, sub_roots, sub)
     return res
 
 
@@ -361,7 +472,10 @@ def run(tier, seed, model_ok, translator, search=False):
     out.rule = ("every include digraph on 1-2 files and a sample (thorough: all) of those on 3 files, plus random input "
                 "sets of 1-6 files (csv, multi-sheet xlsx with sheet-name patterns, mem:) in up to 3 folders, files "
                 "written with metadata, leading blank rows, comment rows, 0-3 tables per sheet, include directives "
-                "anywhere between them. Non-trivial: at least one table was yielded; distinct by file contents.")
+                "anywhere between them; workbooks with include directives on the same row of several sheets; pairs of "
+                "consecutive loads over one tree that reach a shared file by different includers. The forest is built "
+                "from a list, a dict view, a one-shot iterator, a generator and a TableBundle iterator. "
+                "Non-trivial: at least one table was yielded; distinct by file contents.")
     scratch = Path(tempfile.mkdtemp(prefix="c18-")).resolve()
     ops, pend = [], []
     try:
@@ -395,6 +509,8 @@ def run(tier, seed, model_ok, translator, search=False):
                 out.count("filekind:" + f["kind"])
                 if f["kind"] == "xlsx":
                     out.count("xlsx_sheets:%d" % len(f["sheets"]))
+                    out.count("xlsx_sheets_with_hostile_title",
+                              sum(1 for sh in f["sheets"] if any(sh["name"].startswith(h) for h in c16.HOSTILE_TITLES)))
                     for sh, osh in zip(f["sheets"], res["m"].rows.get(fid, [])):
                         if sh.get("col_offset"):
                             out.count("xlsx_sheet_first_column_not_A")
@@ -408,17 +524,48 @@ def run(tier, seed, model_ok, translator, search=False):
                             if any(b["ty"] == "TABLE" for b in sh["truth"]):
                                 out.count("xlsx_tables_below_leading_empty_rows")
             if model_ok and not search:
-                ops += [res["load_op"], res["tree_op"]]
+                ops += [res["load_op"], res["tree_op"], res["sub_op"]]
                 pend.append((case, res))
+        for k, (first, second) in enumerate(gen_two_loads(tier, seed, search)):
+            if len(out.failures) >= 25:
+                break
+            for c in (first, second):
+                c["seed"], c["index"] = seed, f"t{k}"
+            results = two_loads(first, second, scratch / f"t{k}", out, model_ok and not search, order)
+            shutil.rmtree(scratch / f"t{k}", ignore_errors=True)
+            out.evaluations += 2
+            out.count("cases:two_loads_over_one_tree")
+            shared = [o for o in (results[-1]["impl"]["out"] if len(results) == 2 else [])
+                      if o["ty"] == "TABLE" and o["history"] and len(o["history"]) >= 2]
+            if shared:
+                out.count("second_loads_reaching_an_included_file")
+            for c, res in zip((first, second), results):
+                if res["ntables"]:
+                    out.nontrivial.add(hash(repr(c["files"]) + repr(c["roots"])))
+                if model_ok and not search:
+                    ops += [res["load_op"], res["tree_op"], res["sub_op"]]
+                    pend.append((c, res))
+                    if "union_op" in res:
+                        ops.append(res["union_op"])
+                        out.count("forests_over_the_tables_of_two_loads")
         if model_ok and ops:
             answers = common.run_model(ops)
-            for k, (case, res) in enumerate(pend):
-                c16.compare(case, res["m"], res["impl"], answers[2 * k], out, with_history=True)
-                forest = answers[2 * k + 1]
-                if isinstance(forest, dict) and "error" in forest:
-                    out.mismatch("driver refused the location_trees op", case, res["forest"], forest)
-                elif forest != res["forest"]:
-                    out.mismatch("make_location_trees: forest differs from the model's", case, res["forest"], forest)
+            pos = 0
+            for case, res in pend:
+                c16.compare(case, res["m"], res["impl"], answers[pos], out, with_history=True)
+                checks = [("make_location_trees: forest differs from the model's", res["forest"], answers[pos + 1]),
+                          ("make_location_trees over a selection of the tables: forest differs from the model's",
+                           res["sub_forest"], answers[pos + 2])]
+                pos += 3
+                if "union_op" in res:
+                    checks.append(("make_location_trees over the tables of two loads: forest differs from the "
+                                   "model's", res["union_forest"], answers[pos]))
+                    pos += 1
+                for what, want, forest in checks:
+                    if isinstance(forest, dict) and "error" in forest:
+                        out.mismatch("driver refused the location_trees op", case, want, forest)
+                    elif forest != want:
+                        out.mismatch(what, case, want, forest)
     finally:
         shutil.rmtree(scratch, ignore_errors=True)
     out.samples = out.samples[:2]
@@ -432,7 +579,11 @@ def replay(rep):
     scratch = Path(tempfile.mkdtemp(prefix="c18r-")).resolve()
     try:
         o = Outcome()
-        one_case(case, scratch / "case", o, False, "lifo")
+        if "first_roots" in case:
+            first = dict(case, roots=case["first_roots"], root_targets=case["first_root_targets"])
+            two_loads(first, case, scratch / "case", o, False, "lifo")
+        else:
+            one_case(case, scratch / "case", o, False, "lifo")
         if o.failures:
             return False, o.failures[0]["what"]
         return True, "property holds on this input"
